@@ -718,7 +718,7 @@ FAMILIES = [
                             "preempted-in-window=config-context"]),
     Family("double", evaluate, enumerate=enum_double, shards_quick=2, shards_thorough=12,
            required_labels=["preempted-in-window=config-context"]),
-    Family("multi", evaluate, strategy=strat_multi, n_quick=110, n_thorough=1500, shards_quick=4, shards_thorough=16,
+    Family("multi", evaluate, strategy=strat_multi, n_quick=110, n_thorough=1000, shards_quick=4, shards_thorough=16,
            required_labels=["expect=independent", "class=pd-shared-noop", "class=pd-distinct"]),
 ]
 
